@@ -1,5 +1,5 @@
 (* Props/C02.v — property theorems only. *)
-From YQ Require Import Base.Str Model.Node Model.Store Model.Eval Spec.Lens Proofs.LensProofs Proofs.AssignProofs Proofs.AssignPathProofs.
+From YQ Require Import Base.Str Model.Node Model.Store Model.Eval Spec.Lens Proofs.LensProofs Proofs.AssignProofs Proofs.AssignPathProofs Proofs.EvalRO.
 From Coq Require Import ZArith.
 
 (* The update laws, for every simple path (keys and non-negative indices, of
@@ -44,6 +44,32 @@ Theorem C02_assign_is_put : forall p t v doc fuel,
 Proof. exact assign_path_is_put. Qed.
 Print Assumptions C02_assign_is_put.
 
+(* ... and for every assignment-free right-hand side r that has one result (`.a[1].b = .c`, `= [1,2]`, `= .x + 1`,
+   ...): r is evaluated read-only on the document with the path created -- which only appends to the store, the C08
+   theorem -- and the document afterwards is [put p v] of the original one, v the value r's result denotes. *)
+Theorem C02_assign_any_value_is_put : forall p r doc f n1 pos,
+  p <> [] -> Forall step_ok p -> (length p + 3 <= f)%nat -> afree r = true ->
+  vivp p doc = Some (n1, pos) ->
+  exists g, forall q st3 v,
+    eval f r true [] [(O, [])] ([mkRoot None None n1] ++ g) = Ok ([q], st3) ->
+    ptr_eqb (O, pos) q = false -> deref st3 q = Some v ->
+    exists st', eval (S f) (EAssign (pe p) r) false [] [(O, [])] (init_store doc) = Ok ([(O, [])], st')
+                /\ Some (deref st' (O, [])) = Some (put (List.map erase p) v doc).
+Proof. exact assign_path_value_is_put. Qed.
+Print Assumptions C02_assign_any_value_is_put.
+
+Example C02_value_example :
+  let doc := Map [([99], Seq [(RIdx 0, Scalar TInt [53])])] in
+  let p := [EK [97]; EI [49] 1] in
+  afree (EKey [99]) = true /\
+  put (List.map erase p) (Seq [(RIdx 0, Scalar TInt [53])]) doc
+  = Some (Map [([99], Seq [(RIdx 0, Scalar TInt [53])]);
+               ([97], Seq [(RIdx 0, null_node); (RIdx 1, Seq [(RIdx 0, Scalar TInt [53])])])]) /\
+  run (EAssign (pe p) (EKey [99])) doc
+  = tag_ok ++ ser_node (Map [([99], Seq [(RIdx 0, Scalar TInt [53])]);
+               ([97], Seq [(RIdx 0, null_node); (RIdx 1, Seq [(RIdx 0, Scalar TInt [53])])])]) ++ [10].
+Proof. exact assign_value_example. Qed.
+
 (* `p |= r` at any simple path and for every body r: the path is created, r runs with the match as its context, and
    the match receives r's FIRST result; no result leaves it alone. *)
 Theorem C02_update_first_result_or_none : forall p r doc f n1 pos,
@@ -82,7 +108,7 @@ Example C02_path_example :
 Proof. exact assign_path_example. Qed.
 
 (* The key-path special cases (Proofs/AssignProofs.v), kept because their statements are exact about the store.
-   Container values, multi-match left-hand sides and op= are tied by the correspondence check only. *)
+   Multi-match left-hand sides, right-hand sides with several results and op= are tied by the correspondence check only. *)
 Theorem C02_assign_is_put_keys_partial : forall ks t v doc fuel,
   ks <> [] -> (length ks + 3 <= fuel)%nat -> no_wild ks ->
   forall n', put (List.map SKey ks) (Scalar t v) doc = Some n' ->
